@@ -19,7 +19,9 @@
 #ifndef FMT
 #define FMT 0   /* 0 hwloc, 1 list, 2 taskset */
 #endif
+#ifndef ALLOC
 #define ALLOC 8
+#endif
 #ifndef LISTMASK
 #define LISTMASK 0xffUL    /* list format: explicit bits of every word kept inside this mask (few ranges, <= 3 digits) */
 #endif
